@@ -23,6 +23,26 @@ CLAIMED = {
     ),
 }
 
+CLAIMED["C12"] = dict(
+    category="fault_enumeration",
+    design_ref="DESIGN.md section 4 (C12), 3.5",
+    technique="deterministic simulation with crash injection: every discipline-execution crash point of a seeded configuration enumerated by file snapshot (== os._exit death, cross-checked), restart and repeated-crash sequences, checked against the store-event prefix of the uninterrupted run",
+    text=(
+        "For each seeded configuration (MDO/DOE scenario, formulation, algorithm, backup mode, normalisation, budget) the process death is "
+        "injected at EVERY discipline execution k of the run: the backup file as it exists at that instant is captured (no HDF5 handle is open, "
+        "asserted at every k; tape-chosen k are cross-checked against a real forked child killed with os._exit). Each image must load and equal "
+        "the prefix of the uninterrupted run's store events (per backup mode); restarts from the images (all k in the thorough tier), including "
+        "up to three successive crashes, must keep the loaded entries, never re-execute a discipline at a completely stored point, report an "
+        "optimum at least as good as the best loaded point and, without normalisation, reproduce the uninterrupted history. Exhaustive over k "
+        "per configuration, sampled over configurations."
+    ),
+    note=(
+        "Process death only: no torn writes or power loss (death during an export is outside the statement). MDF runs use a sequential MDA "
+        "(Gauss-Seidel or Jacobi with one worker) converged to round-off, and histories of MDF runs are compared up to 1e-7 (warm versus cold MDA start). "
+        "Trusted: h5py/HDF5, SciPy/NLopt determinism."
+    ),
+)
+
 NOT_APPLICABLE = {
     "C02": "in-memory data structure driven by one caller: no schedule, clock, I/O or fault for a simulator to own; a history of edits is an input to a deterministic function (model-based property testing, another technique)",
     "C06": "deterministic numerics: the result is a function of the coupled system and settings; the only schedule-dependent part (parallel Jacobi) is decided under C13",
